@@ -116,7 +116,8 @@ def qbytes_mm_impl_cpu(activations: torch.Tensor, weights: torch.Tensor, output_
     in_features = activations.shape[-1]
     # torch._weight_int8pack_mm returns garbage (or crashes) on CPU unless in_features is a multiple of 16
     if activations.dtype == torch.bfloat16 and weights.dtype == torch.int8 and in_features % 16 == 0:
-        if type(activations) != torch.Tensor:
+        if type(activations) not in (torch.Tensor, torch.nn.Parameter):
+            # (a Parameter is a plain Tensor: torch.Tensor.dequantize() would convert it to float32)
             activations = activations.dequantize()
         return qbytes_int8pack_mm(activations, weights, output_scales)
     return qbytes_mm(activations, weights, output_scales)
@@ -133,7 +134,8 @@ def qbytes_mm_impl_mps(activations: torch.Tensor, weights: torch.Tensor, output_
         and in_features % 32 == 0
         and out_features % 32 == 0
     ):
-        if type(activations) != torch.Tensor:
+        if type(activations) not in (torch.Tensor, torch.nn.Parameter):
+            # (a Parameter is a plain Tensor: torch.Tensor.dequantize() would convert it to float32)
             activations = activations.dequantize()
         return qbytes_int8pack_mm(activations, weights, output_scales)
     return qbytes_mm(activations, weights, output_scales)
